@@ -2,10 +2,12 @@
 
 Parser._add_components (duplicate component names, the variables of each component, the refusal of <reaction>)
 = Load.checkComps + Load.varTable + the reaction stage of C17.loadFull. Tie: lean/Cellml/Tie/LoaderComps.lean.
-`self._add_variables(element)` is a LEAF here, bound to Load.checkVars / Load.entry (see the report)."""
+`self._add_variables(element)` is bound to the GENERATED Parser._add_variables (group AddVars, re-keyed by
+Cellml.Tie.PAddVars.genAddVariables; Tie/AddVars.lean: genAddVariables_leaf proves it equal to the former hand-written
+leaf Cellml.Tie.addVariables = Load.checkVars / Load.entry)."""
 
 GROUP = {'name': 'LoaderComps',
- 'imports': ['Cellml.Tie.LoaderView'],
+ 'imports': ['Cellml.Tie.LoaderView', 'Cellml.Tie.AddVarsLeaf'],
  'header': 'open Load',
  'functions': [{'file': 'cellmlmanip/parser.py',
                 'func': 'Parser._add_components',
@@ -23,7 +25,7 @@ GROUP = {'name': 'LoaderComps',
                              ('[]', '([] : List (CompElem × List (VRef × VRef)))')],
                 'stmt_patterns': [('self.components[__A] = _Component(__A)', 'st := newComponent st {A}'),
                                   ('variable_to_symbol = self._add_variables(__A)',
-                                   'let (variable_to_symbol, st__) ← addVariables self st {A}\nst := st__'),
+                                   'let (variable_to_symbol, st__) ← Cellml.Tie.PAddVars.genAddVariables self st {A}\nst := st__'),
                                   ('component_variables.append(__A)',
                                    'component_variables := component_variables ++ [{A}]'),
                                   ('return component_variables', 'return (component_variables, st)')]}]}
